@@ -322,6 +322,42 @@ theorem buildHist_counts (c : Ch) (tm : Bool) (mn mx : Int) (pixels : List Int) 
     · rename_i hsc
       exact key a (by unfold binOf; rw [if_neg hsc]) hs
 
+/-! ### threshold_adaptive, mean method: two truncating passes stay within [M − 2, M] of the box mean -/
+
+theorem rows_trunc_bound (k : Int) (rows : List (Int × Int)) (hrow : ∀ p ∈ rows, k * p.2 ≤ p.1 ∧ p.1 ≤ k * p.2 + k) :
+    k * (rows.map (·.2)).sum ≤ (rows.map (·.1)).sum ∧ (rows.map (·.1)).sum ≤ k * (rows.map (·.2)).sum + k * (rows.length : Int) := by
+  induction rows with
+  | nil => simp
+  | cons p ps ih =>
+    have h1 := hrow p (List.mem_cons_self)
+    have h2 := ih (fun q hq => hrow q (List.mem_cons_of_mem _ hq))
+    simp only [List.map_cons, List.sum_cons, List.length_cons]
+    rw [Int.mul_add, show ((ps.length + 1 : Nat) : Int) = (ps.length : Int) + 1 by omega, Int.mul_add, Int.mul_one]
+    omega
+
+/-! ### row-major grids -/
+
+theorem flatten_grid (w : Nat) (g : Nat → Nat → Int) (h : Nat) :
+    (((List.range h).map fun (y : Nat) => (List.range w).map fun (x : Nat) => g x y).flatten).length = h * w
+    ∧ ∀ x y, x < w → y < h →
+        (((List.range h).map fun (y : Nat) => (List.range w).map fun (x : Nat) => g x y).flatten).getD (y * w + x) 0 = g x y := by
+  induction h with
+  | zero => exact ⟨by simp, fun x y _ hy => by omega⟩
+  | succ h ih =>
+    rw [List.range_succ, List.map_append, List.flatten_append]
+    simp only [List.map_cons, List.map_nil, List.flatten_cons, List.flatten_nil, List.append_nil]
+    refine ⟨by rw [List.length_append, ih.1, List.length_map, List.length_range, Nat.succ_mul], fun x y hx hy => ?_⟩
+    by_cases hyh : y < h
+    · have hb : (y + 1) * w ≤ h * w := Nat.mul_le_mul_right w (by omega)
+      rw [Nat.succ_mul] at hb
+      rw [List.getD_eq_getElem?_getD, List.getElem?_append_left (by rw [ih.1]; omega), ← List.getD_eq_getElem?_getD]
+      exact ih.2 x y hx hyh
+    · have hy' : y = h := by omega
+      subst hy'
+      rw [List.getD_eq_getElem?_getD, List.getElem?_append_right (by rw [ih.1]; omega), ih.1]
+      rw [show y * w + x - y * w = x by omega, List.getElem?_map, List.getElem?_range hx]
+      rfl
+
 /-! ### duality of erosion and dilation under negation (complement) -/
 
 theorem maxOver_compl (K init : Int) (l : List Int) : maxOver (K - init) (l.map (fun v => K - v)) = K - minOver init l := by
